@@ -178,3 +178,42 @@ def rot_angle(a, b):
     s = math.sqrt(sx * sx + sy * sy + sz * sz) / 2.0
     c = (m[0][0] + m[1][1] + m[2][2] - 1.0) / 2.0
     return deg(math.atan2(s, c))
+
+
+# ------------------------------------------------------------------ predicate bookkeeping
+_KNOWN = {}
+
+
+def known_match(finding, failure):
+    """A listed finding covers a failure when the predicate is one of `predicates` and every key of `where`
+    (a numeric field of the failure's input) lies in the listed closed interval."""
+    if failure.get('predicate') not in finding.get('predicates', []):
+        return False
+    inp = failure.get('input') or {}
+    for key, (lo, hi) in (finding.get('where') or {}).items():
+        v = inp.get(key)
+        if not isinstance(v, (int, float)) or not (lo <= v <= hi):
+            return False
+    return True
+
+
+def predicate(ctx, prop, name, ok, inp, detail=None, klass=None, keep=25):
+    """ctx.predicate, except that failures covered by a listed finding are STORED only `keep` times per finding and
+    shard (they are all counted): the stored list is bounded, and thousands of repetitions of a listed finding must
+    not crowd out a new failure."""
+    if not ok:
+        if prop not in _KNOWN:
+            import core
+            _KNOWN[prop] = [k for k in core.load_known() if k.get('property') == prop]
+        for k in _KNOWN[prop]:
+            if known_match(k, {'predicate': name, 'input': inp}):
+                seen = ctx.__dict__.setdefault('_known_seen', {})
+                seen[k['id']] = seen.get(k['id'], 0) + 1
+                if seen[k['id']] > keep:
+                    ctx.pred_count += 1
+                    kk = klass or name
+                    ctx.pred_classes[kk] = ctx.pred_classes.get(kk, 0) + 1
+                    ctx.pred_fail_overflow = getattr(ctx, 'pred_fail_overflow', 0) + 1
+                    return
+                break
+    ctx.predicate(name, ok, inp, detail, klass)
